@@ -737,6 +737,14 @@ def _emit_fn(g, meta, tmpl, rel, src, m, ctx, name, kv, subs):
         text = strip_attrs(text, rwlog)
     if INLINE['names']:
         text = inline_helpers(text, rwlog)
+    # R12a (always on): a closure parameter written `_` is named (`|_| e` -> `|_ignored| e`); Verus only takes variables there
+    mm0 = mask(text)
+    hits = [mo.start() for mo in re.finditer(r'\|\s*_\s*\|', mm0)]
+    if hits:
+        for h in reversed(hits):
+            e = mm0.index('|', h + 1)
+            text = text[:h] + '|_ignored|' + text[e + 1:]
+        rwlog.append(dict(rule='R12', what='closure parameter `_` named `_ignored`', applied=len(hits)))
     mm = mask(text)
     # re-find body open in rewritten text: first '{' at depth 0 after fn name
     mo = re.search(r'\bfn\s+' + re.escape(name) + r'\b', mm)
